@@ -32,7 +32,10 @@ def c_errprop(ctx):
     n1 = len(ctx.records)
     errprop(ctx, "errprop_sink_bad", ctx.paths("errprop_sink_bad"), ctx.body("errprop_sink_bad"), rule="CTL", no_effects_after_error=(), floor=1)
     b = len(_violations(ctx, n1))
-    return a >= 1 and b >= 1
+    n2 = len(ctx.records)
+    errprop(ctx, "errprop_adapter_bad", ctx.paths("errprop_adapter_bad"), ctx.body("errprop_adapter_bad"), rule="CTL", no_effects_after_error=(), floor=0)
+    c = len(_violations(ctx, n2))
+    return a >= 1 and b >= 1 and c >= 1
 
 
 def c_firstsep(ctx):
